@@ -439,9 +439,18 @@ class SiteEval:
             return OPAQUE
         if isinstance(f, ast.Name):
             if f.id in self.accept_calls and args and (self.is_term(args[0])):
-                p.flags = p.flags | {"accept:" + f.id}
                 base = args[1][1] if len(args) > 1 and args[1][0] == "const" else 10
-                self.conversions.append((p.lang, args[0], f.id, base))
+                key = "int@%d:%d" % (node.lineno, node.col_offset)
+                if f.id == "int" and base in (10, 16) and key not in p.env.get("__resolved__", ()):
+                    # int() is itself a gate: outside its literal syntax it raises ValueError (which the caller may catch and turn
+                    # into a refusal); record what reaches it first, then split on the literal syntax
+                    self.conversions.append((p.lang, args[0], f.id, base))
+                    from spec import rfc
+                    lit = rl.dfa(self.alpha, rfc.PY_INT10 if base == 10 else rfc.PY_INT16)
+                    raise Fork(key, ("cond", self.universe - self.pre(args[0], lit)), "ValueError")
+                p.flags = p.flags | {"accept:" + f.id}
+                if f.id != "int" or base not in (10, 16):
+                    self.conversions.append((p.lang, args[0], f.id, base))
                 return OPAQUE
             if f.id in ("str", "repr", "len", "bytes") :
                 return OPAQUE
